@@ -17,6 +17,20 @@ def run_property(pid: str, tier: str, only=None, src=None, quiet=False) -> int:
     try:
         mod = importlib.import_module(f"sa.rules.{pid.lower()}")
         prog = Program(src) if src else Program()
+        # the kind checks of the package (isinstance in add guards, constructors, key dispatch, __eq__) are NOMINAL: a class of the
+        # package that overrides how isinstance / issubclass answer for itself AND its subclasses makes them structural
+        import ast as _ast
+        for mname_, mi_ in prog.modules.items():
+            for k_ in [x for x in _ast.walk(mi_.tree) if isinstance(x, _ast.ClassDef)]:
+                for f_ in [x for x in k_.body if isinstance(x, _ast.FunctionDef) and x.name in ("__subclasshook__", "__instancecheck__", "__subclasscheck__")]:
+                    own = [x for x in _ast.walk(f_) if isinstance(x, _ast.Compare) and len(x.ops) == 1 and isinstance(x.ops[0], _ast.Is)
+                           and {_ast.unparse(x.left), _ast.unparse(x.comparators[0])} == {f_.args.args[0].arg if f_.args.args else "cls", k_.name}]
+                    subclassed = any(isinstance(c2, _ast.ClassDef) and any(_ast.unparse(b) == k_.name for b in c2.bases) for m2 in prog.modules.values() for c2 in _ast.walk(m2.tree))
+                    if not own and subclassed:
+                        raise DefiniteViolation("nominal-kind-checks", mi_.path.name, f"{k_.name}.{f_.name}", f_,
+                                                f"{k_.name}.{f_.name} is inherited by the subclasses of {k_.name} (no `cls is {k_.name}` guard): isinstance(x, <any subclass>) is then answered by the hook, "
+                                                "so the kind checks that keep wrong objects out of blocks accept any object the hook accepts",
+                                                construct=f"{k_.name}.{f_.name} without own-class guard", props=("C16", "C18", "C19", "C14", "C15"))
         if prog.dynamic_hits:
             raise AnalysisError(
                 "dynamic features defeat lexical name resolution (trusted base 1.5): " + "; ".join(prog.dynamic_hits)
